@@ -184,8 +184,23 @@ def u64(v):
     return v % (1 << 64)
 
 
+def P(i):
+    """positive literal (Model/GraphLits.v names the small ones: an identifier is much cheaper for coqc than a numeral)"""
+    i = int(i)
+    return 'p%d' % i if 1 <= i <= 1000 else '%d%%positive' % i
+
+
+def Z(v):
+    return 'z%d' % v if 0 <= v <= 1000 else '(%d)%%Z' % v
+
+
+def NAT(v):
+    v = int(v)
+    return 'n%d' % v if 0 <= v <= 16 else '%d%%nat' % v
+
+
 def plist(ids):
-    return '[' + '; '.join(str(i) for i in ids) + ']%positive' if ids else '[]'
+    return '[' + ';'.join(P(i) for i in ids) + ']'
 
 
 def parse_output(line):
@@ -234,33 +249,33 @@ def coq_case(line, out):
             if o == 's':
                 ops.append('IOp OSub'); i += 1
             elif o == 'n':
-                ops.append('IOp (ONode %s)' % t[i + 1]); i += 2
+                ops.append('IOp (ONode %s)' % NAT(t[i + 1])); i += 2
             elif o == 'd':
-                ops.append('IOp (ODep %s %s)' % (t[i + 1], t[i + 2])); i += 3
+                ops.append('IOp (ODep %s %s)' % (P(t[i + 1]), P(t[i + 2]))); i += 3
             elif o == 'b':
-                ops.append('IOp (OBip %s %s)' % (t[i + 1], t[i + 2])); i += 3
+                ops.append('IOp (OBip %s %s)' % (P(t[i + 1]), P(t[i + 2]))); i += 3
             elif o == 'c':
-                ops.append('IOp (OClear %s)' % t[i + 1]); i += 2
+                ops.append('IOp (OClear %s)' % NAT(t[i + 1])); i += 2
             elif o == 'A':
                 ops.append('IOp OSetAll'); i += 1
             elif o == 'i':
-                ops.append('IOp (OInc %s)' % t[i + 1]); i += 2
+                ops.append('IOp (OInc %s)' % P(t[i + 1])); i += 2
             elif o == 'k':
-                ops.append('IOp (OCompl %s)' % t[i + 1]); i += 2
+                ops.append('IOp (OCompl %s)' % P(t[i + 1])); i += 2
             elif o == 'P':
                 ops.append('IOp OProp'); i += 1
             elif o == 'x':
                 sx, sc = segs[si], segs[si + 1]
                 si += 2
                 assert sx[0] == 'X' and sc[0] == 'C'
-                recs = '[' + '; '.join('R %d %d %d' % r for r in sx[3]) + ']'
-                cnts = '[' + '; '.join('CN %d %s' % (n, dv.zlit(u64(v))) for n, v in sc[1]) + ']'
-                ops.append('IExec %s %s %s %s' % (t[i + 1], t[i + 2], recs, cnts)); i += 3
+                recs = '[' + ';'.join('R %s %s %s' % (P(a), Z(b), Z(c)) for a, b, c in sx[3]) + ']'
+                cnts = '[' + ';'.join('CN %s %s' % (P(n), 'K64' if u64(v) == K else Z(u64(v))) for n, v in sc[1]) + ']'
+                ops.append('IExec %s %s %s %s' % (NAT(t[i + 1]), NAT(t[i + 2]), recs, cnts)); i += 3
             elif o == 'S':
                 sg = segs[si]
                 si += 1
                 assert sg[0] == 'G'
-                subs = '[' + '; '.join('[' + '; '.join('DN %d %d %d %s %s' % (n, np, c, plist(m), plist(d)) for n, np, c, m, d in s) + ']'
+                subs = '[' + '; '.join('[' + ';'.join('DN %s %s %s %s %s' % (P(n), Z(np), 'K64' if c == K else Z(c), plist(m), plist(d)) for n, np, c, m, d in s) + ']'
                                        for s in sg[1]) + ']'
                 ops.append('IDump %s' % subs); i += 1
             else:
@@ -293,7 +308,7 @@ def run_harness(exe, lines, timeout=300):
 def judge(ctx, name, terms, timeout=600):
     """-> list (per case) of event lists [idx, kind, code30, code31, prepared]; None if Coq failed"""
     body = ('From Coq Require Import ZArith List Bool PArith.\nImport ListNotations.\n'
-            'From DV Require Import Base.MachInt Model.GraphModel Model.C30Check Model.C31Check.\nLocal Open Scope Z_scope.\n')
+            'From DV Require Import Base.MachInt Model.GraphModel Model.GraphLits Model.C30Check Model.C31Check.\nLocal Open Scope Z_scope.\n')
     shards = [terms[i:i + 60] for i in range(0, len(terms), 60)]
     for k, sh in enumerate(shards):
         body += 'Definition cases_%d : list (bool * list iop) := %s.\n' % (k, dv.coq_list(sh))
@@ -344,3 +359,50 @@ def replay_cmd(line):
 
 FRESH_WITNESS = 'N n 0 n 0 n 0 d 2 3 d 1 2 x 0 1'                           # chain 3 -> 2 -> 1 created in reverse, executed directly
 STALE_WITNESS = 'B n 0 n 0 n 0 n 0 b 2 1 b 4 3 b 3 1 A x 0 1 i 2 P x 0 1'    # sets {1,2} and {3,4} merged through 3.biPropDependsOn(1)
+
+
+def judge_parallel(ctx, name, terms, nproc=4, timeout=600):
+    """judge() split over a few coqc processes (each pays the ~5 s library load, so only worth it for many cases)"""
+    import threading
+    if len(terms) < 120 or nproc <= 1:
+        return judge(ctx, name, terms, timeout)
+    k = (len(terms) + nproc - 1) // nproc
+    parts = [terms[i:i + k] for i in range(0, len(terms), k)]
+    res = [None] * len(parts)
+
+    def work(i):
+        res[i] = judge(ctx, '%s_%d' % (name, i), parts[i], timeout)
+    th = [threading.Thread(target=work, args=(i,)) for i in range(len(parts))]
+    for t in th:
+        t.start()
+    for t in th:
+        t.join()
+    if any(r is None for r in res):
+        return None
+    return [e for r in res for e in r]
+
+
+def correspond(ctx, pid, mode, ncases, witnesses):
+    """runs witnesses + ncases random cases; returns list of (line, output, events or None)"""
+    exe = harness()
+    lines = list(witnesses) + [gen_case(ctx.rng, mode) for _ in range(ncases)]
+    outs = run_harness(exe, lines)
+    ctx.phase('harness')
+    kept, terms = [], []
+    res = []
+    for l, o in zip(lines, outs):
+        t = coq_case(l, o)
+        if t is None:
+            res.append((l, o, None))
+        else:
+            res.append((l, o, 'pending'))
+            kept.append(len(res) - 1)
+            terms.append(t)
+    ev = judge_parallel(ctx, 'cases', terms) if terms else []
+    ctx.phase('coq-judge')
+    if ev is None:
+        return [(l, o, None if e is None else 'coq-failed') for l, o, e in res]
+    for idx, e in zip(kept, ev):
+        l, o, _ = res[idx]
+        res[idx] = (l, o, e)
+    return res
